@@ -395,6 +395,15 @@ pub fn c13_workloads(thorough: bool) -> Vec<(Workload, usize)> {
         if rwnd > 8192 && !thorough {
             continue;
         }
+        if !thorough && rwnd == 4096 {
+            // quick double-fault plan over the two faults that make a sender's window knowledge
+            // wrong (a SACK or DATA lost, a SACK overtaken): found two accounting defects that no
+            // single fault exposes (see known_findings.json, C13 fixed entries)
+            let mut w2 = w.clone();
+            w2.name = format!("{}-drop+delay-b2", w.name);
+            w2.faults = vec![Fault::Drop, Fault::Delay(3)];
+            v.push((w2, 2));
+        }
         v.push((w, if thorough && rwnd <= 8192 { 2 } else { 1 }));
     }
     // packet-size boundary: payload sizes whose DATA chunk, bundled with a SACK (16 bytes) or with a
@@ -476,6 +485,8 @@ pub fn c13_monitor(w: &Workload, obs: &Obs) -> Vec<Verdict> {
     // last SACK *delivered* to each side: (cum, a_rwnd, gap-acked set)
     let mut last_sack: [Option<(u32, u32, Vec<(u16, u16)>)>; 2] = [None, None];
     let mut last_sack_t: [u64; 2] = [0, 0];
+    // per data sender: TSN -> virtual ms at which a DELIVERED SACK first reported it in a gap-ack block
+    let mut gap_acked_at: [BTreeMap<u32, u64>; 2] = [BTreeMap::new(), BTreeMap::new()];
     let mut init_rwnd: [Option<u32>; 2] = [None, None]; // window the peer announced in INIT/INIT-ACK
     let mut all_acked_since: [Option<u64>; 2] = [None, None];
     let total_sub: [usize; 2] = [
@@ -498,6 +509,11 @@ pub fn c13_monitor(w: &Workload, obs: &Obs) -> Vec<Verdict> {
                         if newer {
                             if last_sack[peer].as_ref().map(|x| x.0) != Some(*cum) {
                                 last_sack_t[peer] = ev.t_ms;
+                            }
+                            for (a, b) in gaps.iter() {
+                                for off in *a..=*b {
+                                    gap_acked_at[peer].entry(cum.wrapping_add(off as u32)).or_insert(ev.t_ms);
+                                }
                             }
                             last_sack[peer] = Some((*cum, *a_rwnd, gaps.clone()));
                         }
@@ -581,6 +597,11 @@ pub fn c13_monitor(w: &Workload, obs: &Obs) -> Vec<Verdict> {
                                     push("retransmit_after_covering_sack", format!("t={} {}: TSN {} retransmitted although a SACK with cum {} had been delivered", ev.t_ms, ev.from.name(), tsn, cum));
                                 }
                             }
+                            if let Some(t0) = gap_acked_at[s].get(tsn) {
+                                if ev.t_ms > *t0 {
+                                    push("retransmit_after_covering_gap_ack", format!("t={} {}: TSN {} retransmitted although a SACK delivered at t={} had reported it in a gap-ack block", ev.t_ms, ev.from.name(), tsn, t0));
+                                }
+                            }
                         }
                         if all_acked_since[s].map_or(false, |t0| ev.t_ms > t0) {
                             push("data_after_everything_acked", format!("t={} {}: DATA TSN {} after all submitted data was acknowledged", ev.t_ms, ev.from.name(), tsn));
@@ -597,7 +618,12 @@ pub fn c13_monitor(w: &Workload, obs: &Obs) -> Vec<Verdict> {
                                 if last_sack[peer].as_ref().map(|x| x.0) != Some(*cum) {
                                     last_sack_t[peer] = ev.t_ms;
                                 }
-                                last_sack[peer] = Some((*cum, *a_rwnd, gaps.clone()));
+                                for (a, b) in gaps.iter() {
+                                for off in *a..=*b {
+                                    gap_acked_at[peer].entry(cum.wrapping_add(off as u32)).or_insert(ev.t_ms);
+                                }
+                            }
+                            last_sack[peer] = Some((*cum, *a_rwnd, gaps.clone()));
                             }
                             if let Some(h) = highest[peer] {
                                 if wire::tsn_ge(*cum, h) && all_acked_since[peer].is_none() {
